@@ -212,9 +212,21 @@ func c13R2(p *Prog, r *Report) {
 		return
 	}
 	req := hs.ResultVar(0)
+	// req itself, or a variable that holds a plain copy of it (a helper's parameter or result)
+	isReq := func(e ast.Expr) bool {
+		o := objOf(info, e)
+		if o == nil || req == nil {
+			return false
+		}
+		if o == req {
+			return true
+		}
+		at := fc.G.VertexOf(e)
+		return at >= 0 && copyOfVar(fc, at, o, req, 0)
+	}
 	isReqField := func(e ast.Expr, f string) bool {
 		sel, ok := ast.Unparen(e).(*ast.SelectorExpr)
-		return ok && sel.Sel.Name == f && objOf(info, sel.X) == req
+		return ok && sel.Sel.Name == f && isReq(sel.X)
 	}
 	// routing request info
 	if cl, ok := ast.Unparen(route.Call.Args[1]).(*ast.CompositeLit); ok {
@@ -247,7 +259,7 @@ func c13R2(p *Prog, r *Report) {
 	if dsel != nil {
 		if do := objOf(info, dsel.X); do != nil {
 			for _, cs := range fc.AllCalls() {
-				if cs.Fn != nil && cs.Fn.Name() == "NewStreamDialer" && cs.ResultVar(0) == do {
+				if cs.Fn != nil && cs.Fn.Name() == "NewStreamDialer" && cs.ResultVar(0) != nil && (cs.ResultVar(0) == do || copyOfVar(fc, dial.V, do, cs.ResultVar(0), 0)) {
 					if s2, ok := ast.Unparen(cs.Call.Fun).(*ast.SelectorExpr); ok && objOf(info, s2.X) == route.ResultVar(0) {
 						okDialer = true
 					}
